@@ -89,7 +89,7 @@ def run(tier, seed):
                 reqs.append(f"wframe {exp} {d} {ln} {rng.below(256)}")
                 meta.append((exp, d, ln))
     mo = run_parallel(drv, reqs, jobs=12)
-    ho = run_parallel(har, reqs, jobs=12)
+    ho = ["abort panic" if x.startswith("abort panic") else x for x in run_parallel(har, reqs, jobs=12)]
     n_abort = 0
     reads, rmeta = [], []
     for (exp, d, ln), rq, a, h in zip(meta, reqs, mo, ho):
